@@ -350,7 +350,7 @@ def merge_result(acc, res, shards, mode):
             case = cases[f["idx"]]
             grp = C.FAMILIES[case[0]].group(case)
             if f["kind"] in ("wrong-size-output-accepted", "length-mismatch-accepted", "truncated-hash-accepted", "bad-tag-accepted",
-                             "ret-shape", "wrong-power", "wrong-product"):
+                             "ret-shape", "wrong-power", "wrong-product", "wrong-value"):
                 # functional oddities belong to other properties; C17 only records them
                 acc.observe("%s: %s (case %s, %s mode) - functional, not a memory-safety verdict"
                             % (grp, f["detail"], short(list(case)), mode))
